@@ -4,7 +4,7 @@
 (* Lines of one case (same report multiset, different arrival orders and        *)
 (* repeated calls) must all choose the same value: `chosen` is inferred from    *)
 (* the first line of a case and must be respected by the later ones.            *)
-EXTENDS Aggregation, Json, TLC
+EXTENDS Aggregation, Json, TLC, TraceLib
 Trace == ndJsonDeserialize("trace.ndjson")
 VARIABLES l, viol, cur, chosen
 tvars == <<l, viol, cur, chosen>>
@@ -30,7 +30,7 @@ Step ==
   /\ LET e == Trace[l] IN
        /\ cur' = e.case
        /\ chosen' = IF e.case = cur /\ chosen # {} THEN chosen ELSE IF e.ok THEN {Key(e)} ELSE {}
-       /\ viol' = IF Cardinality(viol) >= 40 THEN viol ELSE viol \cup { <<l, c>> : c \in Clauses(e) }
+       /\ viol' = AddViol(viol, l, Clauses(e))
        /\ l' = l + 1
 Spec == Init /\ [][Step]_tvars
 Done == (l = Len(Trace) + 1) => PrintT(<<"VIOLS", ToJson(viol)>>)
